@@ -11,6 +11,7 @@ from hypothesis import strategies as st
 
 from harness.core import HarnessError
 from harness.hyp import drive
+from harness.fork import in_child
 from gens import keys as gk, jweplan, jsonv
 from gens.jose import jkey, ALL_JWS, exc_key
 from ref import jws as rjws, jwe as rjwe, b64 as rb, keys as rk, selftest
@@ -88,7 +89,9 @@ def cases(draw):
     rule = draw(st.sampled_from(["type", "type", "type", "type", "missing", "crit", "unregistered", "strict-off", "custom-ok", "custom-type", "custom-required",
                                  "alg-specific-missing", "b64-no-crit", "none"]))
     pos = "protected" if ser == "compact" else draw(st.sampled_from(["protected", "unprotected"] + (["recipient"] if kind == "jwe" else [])))
-    c = {"kind": kind, "dir": direction, "ser": ser, "rfc7797": rfc7797, "alg": alg, "rule": rule, "pos": pos, "seed": draw(st.integers(0, 1000))}
+    c = {"kind": kind, "dir": direction, "ser": ser, "rfc7797": rfc7797, "alg": alg, "rule": rule, "pos": pos, "seed": draw(st.integers(0, 1000)),
+         # a registry with caller-registered parameters is created (and used) first: it must not influence the registry under test
+         "prelude": draw(st.booleans())}
     if rule == "type":
         name = draw(st.sampled_from(sorted(types)))
         t, v = draw(st.sampled_from(wrong_types(types[name])))
@@ -191,8 +194,22 @@ def registries(c):
     return {"registry": jwe.JWERegistry(header_registry=hr, algorithms=jweplan.ALL_NAMES, strict_check_header=strict)}
 
 
+def prelude():
+    """Another registry, with the names used by the 'unregistered' cases registered as caller parameters, is built and used."""
+    from joserfc import jws, jwe
+    from joserfc.registry import HeaderParameter
+    k = K()
+    extra = {n: HeaderParameter("caller registered elsewhere", "str") for n in ("x-ext", "foo", "custom", "b65")}
+    r1 = jws.JWSRegistry(header_registry=extra, algorithms=["HS256"])
+    r2 = jwe.JWERegistry(header_registry=extra, algorithms=["dir", "A128GCM"])
+    jws.serialize_compact({"alg": "HS256", "custom": "v"}, b"x", k["obj"]["oct32"], registry=r1)
+    jwe.encrypt_compact({"alg": "dir", "enc": "A128GCM", "foo": "v"}, b"x", k["obj"]["oct16"], registry=r2)
+
+
 def run_case(c) -> dict:
     from joserfc import jws, jwe, rfc7797
+    if c.get("prelude"):
+        prelude()
     prot, unprot, rec, exp = build_headers(c)
     if c["ser"] == "compact" and (unprot or rec):
         return {"_skip": 1}
@@ -347,7 +364,7 @@ def run_shard(ctx, spec):
     K()
 
     def body(c):
-        f = run_case(c)
+        f = in_child(lambda: run_case(c))        # pristine process state per case: a recorded case is self-contained
         if "_skip" in f:
             return
         if "_dont_care" in f:
@@ -359,7 +376,7 @@ def run_shard(ctx, spec):
                  sample=c)
         for k, w in f.items():
             ctx.finding(k, w, c)
-    drive(ctx, "hdr", cases(), body, 4000 if ctx.tier == "quick" else 30000)
+    drive(ctx, "hdr", cases(), body, 1800 if ctx.tier == "quick" else 30000)
 
 
 def replay(rec) -> dict:
